@@ -1505,11 +1505,40 @@ fn exhaust(prop: &str, depth: u32, reduced: bool, threads: u64) -> ExOut {
     let total = n.pow(depth);
     let caps = caps_for("quick");
     let tail = [[byte_for(A::Observe), 0, 0], [byte_for(A::Observe), 255, 0]];
+    // watchdog: the enumeration runs in this process; a history that never returns (possible
+    // only on a badly broken crate) must not hang the check: exit 2, inconclusive
+    let progress = std::sync::Arc::new(AtomicU32::new(0));
+    {
+        let progress = progress.clone();
+        std::thread::spawn(move || {
+            let mut last = u32::MAX;
+            let mut idle = 0;
+            loop {
+                std::thread::sleep(Duration::from_secs(1));
+                let p = progress.load(Ordering::Relaxed);
+                if p == last {
+                    idle += 1;
+                } else {
+                    idle = 0;
+                    last = p;
+                }
+                if p == u32::MAX {
+                    return;
+                }
+                if idle >= 60 {
+                    println!("HANG (inconclusive, not a violation): the exhaustive phase stopped making progress");
+                    std::process::exit(2);
+                }
+            }
+        });
+    }
+    let progress2 = progress.clone();
     let results: Vec<ExOut> = std::thread::scope(|sc| {
         let mut hs = Vec::new();
         for w in 0..threads {
             let ls = &ls;
             let caps = &caps;
+            let progress = progress.clone();
             hs.push(sc.spawn(move || {
                 let mut out = ExOut { evaluations: 0, nontrivial: 0, failure: None, sample: None };
                 let mut idx = w;
@@ -1527,6 +1556,7 @@ fn exhaust(prop: &str, depth: u32, reduced: bool, threads: u64) -> ExOut {
                             ops: ops.clone(),
                         };
                         let o = run_case(prop, &case, caps);
+                        progress.fetch_add(1, Ordering::Relaxed);
                         out.evaluations += 1;
                         if o.nontrivial.is_some() {
                             out.nontrivial += 1;
@@ -1546,6 +1576,7 @@ fn exhaust(prop: &str, depth: u32, reduced: bool, threads: u64) -> ExOut {
         }
         hs.into_iter().map(|h| h.join().unwrap()).collect()
     });
+    progress2.store(u32::MAX, Ordering::Relaxed);
     let mut m = ExOut { evaluations: 0, nontrivial: 0, failure: None, sample: None };
     for r in results {
         m.evaluations += r.evaluations;
